@@ -39,6 +39,8 @@ class CodecUnit(Unit):
             f = c.it.prog.func(qual)
             a = vals[1:] if (instance is not None or f.kind == 'classmethod') else vals
             kind, val = expect(c.it, *a)
+            if kind == 'any':
+                return None        # three-valued spec: neither a value nor a listed malformation is demanded here
             sp = Spec()
             if kind == 'ret':
                 sp.ret = val
@@ -84,6 +86,8 @@ class CodecUnit(Unit):
 
     def _expected(self, outcome, model, out):
         sp = outcome.extra['spec']
+        if sp is None:
+            return []
         if sp.exc is not None:
             cls = sp.exc[0]
             return self._cmp('raise', None, cls if isinstance(cls, str) else cls.name, out, model, 'spec')
